@@ -4,6 +4,7 @@ package rules
 
 import (
 	"fmt"
+	"go/ast"
 	"go/constant"
 	"go/token"
 	"go/types"
@@ -2143,4 +2144,401 @@ func failsOnlyBlock(b *ssa.BasicBlock) bool {
 		b = b.Succs[0]
 	}
 	return false
+}
+
+// ---------------------------------------------------------------------------
+// R-PANIC[optional-pointer-deref]: a pointer field that the package itself
+// compares with nil somewhere (the writer's "has target" flag is `t.TargetName
+// != nil`) is nil by design when the peer left the optional part out. Every
+// dereference of such a field lies behind the non-nil edge of a nil test of the
+// same field, or behind an assignment of a fresh value to it in the same function.
+
+func (c *Ctx) OptionalPointerDerefs(pkgs ...string) []core.Ob {
+	var obs []core.Ob
+	fns := []*ssa.Function{}
+	for _, fn := range c.Funcs() {
+		if inPkgs(fn, pkgs...) && len(fn.Blocks) > 0 {
+			fns = append(fns, fn)
+		}
+	}
+	sortFns(fns)
+	fieldOf := func(v ssa.Value) (*types.Var, ssa.Value) {
+		ld, ok := v.(*ssa.UnOp)
+		if !ok || ld.Op != token.MUL {
+			return nil, nil
+		}
+		fa, ok := ld.X.(*ssa.FieldAddr)
+		if !ok {
+			return nil, nil
+		}
+		st, ok := deref(fa.X.Type()).Underlying().(*types.Struct)
+		if !ok || fa.Field >= st.NumFields() {
+			return nil, nil
+		}
+		f := st.Field(fa.Field)
+		if _, isPtr := f.Type().Underlying().(*types.Pointer); !isPtr {
+			return nil, nil
+		}
+		return f, fa.X
+	}
+	// fields compared with nil somewhere in the packages
+	optional := map[*types.Var]bool{}
+	for _, fn := range fns {
+		for _, b := range fn.Blocks {
+			for _, in := range b.Instrs {
+				cmp, ok := in.(*ssa.BinOp)
+				if !ok || (cmp.Op != token.EQL && cmp.Op != token.NEQ) {
+					continue
+				}
+				for _, pair := range [][2]ssa.Value{{cmp.X, cmp.Y}, {cmp.Y, cmp.X}} {
+					if isNilConst(pair[1]) {
+						if f, _ := fieldOf(pair[0]); f != nil {
+							optional[f] = true
+						}
+					}
+				}
+			}
+		}
+	}
+	for _, fn := range fns {
+		k := 0
+		for _, b := range fn.Blocks {
+			for _, in := range b.Instrs {
+				var ptr ssa.Value
+				switch x := in.(type) {
+				case *ssa.UnOp:
+					if x.Op == token.MUL {
+						ptr = x.X
+					}
+				case *ssa.FieldAddr:
+					ptr = x.X
+				}
+				if ptr == nil {
+					continue
+				}
+				f, base := fieldOf(ptr)
+				if f == nil || !optional[f] {
+					continue
+				}
+				k++
+				o := core.Ob{Rule: "R-PANIC", Key: fmt.Sprintf("%s#optional-pointer-deref%d:%s", core.FnName(fn), k, f.Name()), Pos: c.P.Pos(in.Pos()), Func: core.FnName(fn), Armed: true, Status: core.OK,
+					Want: "the optional pointer field " + f.Name() + " (nil when the peer left the part out) is dereferenced only behind a nil test or a fresh assignment"}
+				guarded := false
+				for _, d := range fn.Blocks {
+					if !(d == b || d.Dominates(b)) {
+						continue
+					}
+					// a fresh value stored into the field on the way
+					for _, x := range d.Instrs {
+						if x == in {
+							break
+						}
+						if st, ok := x.(*ssa.Store); ok {
+							if fa, ok := st.Addr.(*ssa.FieldAddr); ok && sameValue(fa.X, base) {
+								if s2, ok := deref(fa.X.Type()).Underlying().(*types.Struct); ok && s2.Field(fa.Field) == f {
+									if _, isAlloc := st.Val.(*ssa.Alloc); isAlloc {
+										guarded = true
+									}
+								}
+							}
+						}
+					}
+					if d == b {
+						continue
+					}
+					iff, ok := d.Instrs[len(d.Instrs)-1].(*ssa.If)
+					if !ok {
+						continue
+					}
+					// (the test itself, or a flag computed from it: has := pk.Boolean(t.F != nil); if has { ... })
+					cmp, ok := stripConv(iff.Cond).(*ssa.BinOp)
+					if !ok || (cmp.Op != token.EQL && cmp.Op != token.NEQ) {
+						continue
+					}
+					for _, pair := range [][2]ssa.Value{{cmp.X, cmp.Y}, {cmp.Y, cmp.X}} {
+						if !isNilConst(pair[1]) {
+							continue
+						}
+						if f2, base2 := fieldOf(pair[0]); f2 == f && sameValue(base2, base) {
+							nonNil := d.Succs[0]
+							if cmp.Op == token.EQL {
+								nonNil = d.Succs[1]
+							}
+							if len(nonNil.Preds) == 1 && (nonNil == b || nonNil.Dominates(b)) {
+								guarded = true
+							}
+						}
+					}
+				}
+				if !guarded {
+					o.Status = core.Violated
+					o.Got = "dereferenced without a nil test: when the optional part is absent (as the peer may choose) this panics with a nil pointer dereference"
+				}
+				obs = append(obs, o)
+			}
+		}
+	}
+	return obs
+}
+
+// ---------------------------------------------------------------------------
+// R-ERRFLOW[goroutine-error-kept]: the bot moves packets between the socket
+// and its queues in two goroutines. A goroutine has no caller to return an
+// error to: where it gives up its loop because a call failed, the error is
+// kept somewhere (stored, or handed to a call) so that the methods of the
+// connection can report it. The receiving side does (rerr); a sending side
+// that only breaks leaves WritePacket answering nil for packets that are never
+// written.
+
+func (c *Ctx) GoroutineErrorsKept(pkg string) []core.Ob {
+	var obs []core.Ob
+	fns := []*ssa.Function{}
+	for _, fn := range c.Funcs() {
+		if inPkgs(fn, pkg) && len(fn.Blocks) > 0 {
+			fns = append(fns, fn)
+		}
+	}
+	sortFns(fns)
+	for _, fn := range fns {
+		for _, b := range fn.Blocks {
+			for _, in := range b.Instrs {
+				g, ok := in.(*ssa.Go)
+				if !ok {
+					continue
+				}
+				var body *ssa.Function
+				switch v := g.Call.Value.(type) {
+				case *ssa.MakeClosure:
+					body, _ = v.Fn.(*ssa.Function)
+				case *ssa.Function:
+					body = v
+				}
+				if body == nil || len(body.Blocks) == 0 {
+					continue
+				}
+				loops := naturalLoops(body)
+				k := 0
+				for _, bb := range body.Blocks {
+					for _, x := range bb.Instrs {
+						call, ok := x.(*ssa.Call)
+						if !ok {
+							continue
+						}
+						// the call's error result
+						var errv ssa.Value
+						if isErrorType(call.Type()) {
+							errv = call
+						} else if tup, ok := call.Type().(*types.Tuple); ok && tup.Len() > 0 && isErrorType(tup.At(tup.Len()-1).Type()) && call.Referrers() != nil {
+							for _, r := range *call.Referrers() {
+								if ex, ok := r.(*ssa.Extract); ok && ex.Index == tup.Len()-1 {
+									errv = ex
+								}
+							}
+						}
+						if errv == nil || errv.Referrers() == nil {
+							continue
+						}
+						// tested, and the failing edge leaves the loop the call is in
+						leaves := false
+						for _, r := range *errv.Referrers() {
+							cmp, ok := r.(*ssa.BinOp)
+							if !ok || (cmp.Op != token.NEQ && cmp.Op != token.EQL) || cmp.Referrers() == nil {
+								continue
+							}
+							for _, u := range *cmp.Referrers() {
+								iff, ok := u.(*ssa.If)
+								if !ok {
+									continue
+								}
+								bad := iff.Block().Succs[0]
+								if cmp.Op == token.EQL {
+									bad = iff.Block().Succs[1]
+								}
+								for _, lp := range loops {
+									if lp.body[bb] && !lp.body[bad] {
+										leaves = true
+									}
+									// (a block of the loop that only jumps out)
+									if lp.body[bb] && lp.body[bad] && len(bad.Succs) == 1 && !lp.body[bad.Succs[0]] {
+										leaves = true
+									}
+								}
+							}
+						}
+						if !leaves {
+							continue
+						}
+						k++
+						o := core.Ob{Rule: "R-ERRFLOW", Key: fmt.Sprintf("goroutine-error-kept:%s#%d", core.FnName(body), k), Pos: c.P.Pos(call.Pos()), Func: core.FnName(body), Armed: true, Status: core.OK,
+							Want: "a goroutine that gives up its loop on the error of " + shortCallee(call.Common()) + " keeps that error (stores it or hands it on) for the connection's methods to report"}
+						kept := false
+						for _, r := range *errv.Referrers() {
+							switch y := r.(type) {
+							case *ssa.Store:
+								if y.Val == errv {
+									kept = true
+								}
+							case ssa.CallInstruction:
+								kept = true
+							case *ssa.MakeInterface, *ssa.Send:
+								kept = true
+							}
+						}
+						if !kept {
+							o.Status = core.Violated
+							o.Got = "the error is only tested and the loop left: nothing remembers it, later calls on the connection keep answering nil for work that is never done"
+						}
+						obs = append(obs, o)
+					}
+				}
+			}
+		}
+	}
+	return obs
+}
+
+// ---------------------------------------------------------------------------
+// R-SCHEMA[reply-is-read]: the bot answers some clientbound packets of the
+// login and configuration states with a serverbound one (login success ->
+// login acknowledged, finish configuration -> finish configuration). Where the
+// server's gate sends such a packet, it reads the answer before it hands the
+// connection on: otherwise the answer is taken for the first packet of the
+// next state and every later packet is off by one.
+
+func (c *Ctx) GateRepliesRead() []core.Ob {
+	var obs []core.Ob
+	// the name of a packet id constant of data/packetid the expression denotes ("" otherwise)
+	idName := func(info *types.Info, e ast.Expr) string {
+		for {
+			switch x := ast.Unparen(e).(type) {
+			case *ast.CallExpr: // a conversion: int32(packetid.X), packetid.ServerboundPacketID(p.ID)
+				if len(x.Args) == 1 {
+					if tv, ok := info.Types[x.Fun]; ok && tv.IsType() {
+						e = x.Args[0]
+						continue
+					}
+				}
+				return ""
+			case *ast.SelectorExpr:
+				if k, ok := info.Uses[x.Sel].(*types.Const); ok && k.Pkg() != nil && strings.HasSuffix(k.Pkg().Path(), "/data/packetid") {
+					return k.Name()
+				}
+				return ""
+			default:
+				return ""
+			}
+		}
+	}
+	marshalID := func(info *types.Info, call *ast.CallExpr) string {
+		sel, ok := ast.Unparen(call.Fun).(*ast.SelectorExpr)
+		if !ok || sel.Sel.Name != "Marshal" || len(call.Args) == 0 {
+			return ""
+		}
+		return idName(info, call.Args[0])
+	}
+	// ---- what the bot answers with what: case Clientbound...: ... Marshal(Serverbound..., ...)
+	pairs := map[[2]string]token.Pos{}
+	for _, pk := range c.P.Pkgs {
+		if core.Rel(pk.PkgPath) != "bot" {
+			continue
+		}
+		for _, f := range pk.Syntax {
+			ast.Inspect(f, func(n ast.Node) bool {
+				cc, ok := n.(*ast.CaseClause)
+				if !ok {
+					return true
+				}
+				var xs []string
+				for _, e := range cc.List {
+					if nm := idName(pk.TypesInfo, e); strings.HasPrefix(nm, "Clientbound") {
+						xs = append(xs, nm)
+					}
+				}
+				if len(xs) == 0 {
+					return true
+				}
+				for _, st := range cc.Body {
+					ast.Inspect(st, func(m ast.Node) bool {
+						if call, ok := m.(*ast.CallExpr); ok {
+							if y := marshalID(pk.TypesInfo, call); strings.HasPrefix(y, "Serverbound") {
+								for _, x := range xs {
+									pairs[[2]string{x, y}] = call.Pos()
+								}
+							}
+						}
+						return true
+					})
+				}
+				return true
+			})
+		}
+	}
+	// ---- where the server's gate sends X
+	n := 0
+	for _, pk := range c.P.Pkgs {
+		if core.Rel(pk.PkgPath) != "server" {
+			continue
+		}
+		for _, f := range pk.Syntax {
+			for _, d := range f.Decls {
+				fd, ok := d.(*ast.FuncDecl)
+				if !ok || fd.Body == nil {
+					continue
+				}
+				ast.Inspect(fd.Body, func(m ast.Node) bool {
+					call, ok := m.(*ast.CallExpr)
+					if !ok {
+						return true
+					}
+					x := marshalID(pk.TypesInfo, call)
+					if !strings.HasPrefix(x, "Clientbound") {
+						return true
+					}
+					var keys [][2]string
+					for pr := range pairs {
+						if pr[0] == x {
+							keys = append(keys, pr)
+						}
+					}
+					sort.Slice(keys, func(i, j int) bool { return keys[i][1] < keys[j][1] })
+					for _, pr := range keys {
+						n++
+						fname := fd.Name.Name
+						if fd.Recv != nil && len(fd.Recv.List) > 0 {
+							fname = types.ExprString(fd.Recv.List[0].Type) + "." + fname
+						}
+						o := core.Ob{Rule: "R-SCHEMA", Key: fmt.Sprintf("reply-is-read:server.%s:%s->%s", fname, pr[0], pr[1]), Pos: c.P.Pos(call.Pos()), Func: "server." + fname, Armed: true, Status: core.OK,
+							Want: "the bot answers " + pr[0] + " with " + pr[1] + " (" + c.P.Pos(pairs[pr]) + "); the function that sends it tests a received packet's id for the answer before it returns"}
+						read := false
+						ast.Inspect(fd.Body, func(q ast.Node) bool {
+							switch y := q.(type) {
+							case *ast.BinaryExpr:
+								if y.Pos() > call.Pos() && (y.Op == token.EQL || y.Op == token.NEQ) && (idName(pk.TypesInfo, y.X) == pr[1] || idName(pk.TypesInfo, y.Y) == pr[1]) {
+									read = true
+								}
+							case *ast.CaseClause:
+								for _, e := range y.List {
+									if y.Pos() > call.Pos() && idName(pk.TypesInfo, e) == pr[1] {
+										read = true
+									}
+								}
+							}
+							return true
+						})
+						if !read {
+							o.Status = core.Violated
+							o.Got = "the packet is sent and the function never looks for the bot's answer: the answer arrives as the first packet of the next state, every later packet is off by one"
+						}
+						obs = append(obs, o)
+					}
+					return true
+				})
+			}
+		}
+	}
+	if n == 0 {
+		obs = append(obs, core.Ob{Rule: "R-SCHEMA", Key: "reply-is-read", Armed: true, Status: core.OK,
+			Want: "packets the bot answers are followed by a read of the answer on the server's side", Got: fmt.Sprintf("%d request/answer pairs on the bot's side, none of the requests is sent by package server", len(pairs))})
+	}
+	return obs
 }
